@@ -4,9 +4,9 @@
 D=$1; shift
 WT=/tmp/wt-seed-$$
 git -C /repo worktree add -q $WT HEAD || exit 2
-echo "== demo on unchanged tree"; (cd $D && PYTHONPATH=$WT timeout 600 /venv/bin/python -W ignore demo.py >/tmp/wt-seed-demo0.log 2>&1; echo "exit=$?")
+echo "== demo on unchanged tree"; (cd $D && PYTHONPATH=$WT timeout 600 /venv/bin/python -W ignore demo.py >/tmp/wt-seed-demo0-$$.log 2>&1; echo "exit=$?")
 if ! git -C $WT apply $D/patch.diff; then echo "PATCH DOES NOT APPLY"; git -C /repo worktree remove --force $WT; exit 2; fi
-echo "== demo on changed tree"; (cd $D && PYTHONPATH=$WT timeout 600 /venv/bin/python -W ignore demo.py >/tmp/wt-seed-demo1.log 2>&1; echo "exit=$?"; tail -3 /tmp/wt-seed-demo1.log)
+echo "== demo on changed tree"; (cd $D && PYTHONPATH=$WT timeout 600 /venv/bin/python -W ignore demo.py >/tmp/wt-seed-demo1-$$.log 2>&1; echo "exit=$?"; tail -3 /tmp/wt-seed-demo1-$$.log)
 echo "== unit tests on changed tree"; (cd $WT && PYTHONPATH=$WT /venv/bin/python -m pytest -q -p no:cacheprovider --timeout=900 --continue-on-collection-errors -q tests 2>&1 | tail -1)
 for P in "$@"; do echo "== check $P"; MOKAPOT_REPO=$WT /verif/check $P 2>&1 | grep -v "^$" | tail -3; done
 git -C /repo worktree remove --force $WT
